@@ -114,8 +114,57 @@ def check_polygon(seq, xfs, res, single_probe=None, perturb=True):
                 )
 
 
+FILTER_POLYS = [[(0.0, 0.0), (30.0, 0.0), (30.0, 20.0), (0.0, 20.0)], [(0.0, 0.0), (30.0, 0.0), (30.0, 10.0), (10.0, 10.0), (10.0, 30.0), (0.0, 30.0)],
+                [(5.0, 0.0), (35.0, 10.0), (25.0, 30.0), (0.0, 20.0)]]
+
+
+def run_filter(case, res):
+    """the land-constraint filter built on the test (feature_recognition.remove_cutout) with the caller's own edge tolerance: points are
+    kept / dropped as their class under THAT tolerance says (on-edge = detour |PA|+|PB|-|AB| below the tolerance, the documented metric)"""
+    from ghedesigner.feature_recognition import remove_cutout
+
+    poly = FILTER_POLYS[case["poly"]]
+    tol = case["tol"]
+    n = len(poly)
+    probes = []
+    for i in range(n):
+        a, b = poly[i], poly[(i + 1) % n]
+        ex, ey = b[0] - a[0], b[1] - a[1]
+        ln = (ex * ex + ey * ey) ** 0.5
+        nx, ny = -ey / ln, ex / ln
+        for f in (0.25, 0.5, 0.8):
+            for d in (-3.0, -0.3, -0.04, -0.004, -4e-5, 0.0, 4e-5, 0.004, 0.04, 0.3, 3.0):
+                probes.append((a[0] + f * ex + d * nx, a[1] + f * ey + d * ny))
+    for remove_inside in (True, False):
+        for keep in (True, False):
+            res["evals"] += 1
+            kept = remove_cutout([list(q) for q in probes], [list(v) for v in poly], remove_inside=remove_inside, keep_contour=keep, on_edge_tolerance=tol)
+            kept = {(float(q[0]), float(q[1])) for q in kept}
+            for q in probes:
+                det = P.detour(poly, q[0], q[1])
+                if abs(det - tol) < max(1e-9, 1e-6 * tol):
+                    res["excluded"] += 1
+                    continue
+                cls = 0 if det < tol else P.classify(poly, q[0], q[1])
+                if remove_inside:
+                    want = (cls != 1) and not (cls == 0 and not keep)
+                else:
+                    want = (cls == 1) or (cls == 0 and keep)
+                if ((float(q[0]), float(q[1])) in kept) != want:
+                    res["violations"].append(core.viol("land_filter_ignores_class", dict(case, probe=[q[0], q[1]], remove_inside=remove_inside, keep_contour=keep),
+                                                       msg=f"remove_cutout(tolerance {tol}, remove_inside={remove_inside}, keep_contour={keep}): point ({q[0]:.5f}, {q[1]:.5f}) with detour {det:.3e} "
+                                                           f"(class {cls} under that tolerance) was {'kept' if not want else 'dropped'}", tol=tol, cls=cls))
+                    break
+    res.outcome("land_filter")
+    res["nontrivial"] += 1
+    res["sample"] = dict(case)
+
+
 def run_case(case):
     res = core.Result(evals=0)
+    if "tol" in case:
+        run_filter(case, res)
+        return res
     if "polygon" in case:  # single replay case
         check_polygon([tuple(v) for v in case["polygon"]], [case["xf"]], res, single_probe=case["probe_units"])
         return res
@@ -150,7 +199,7 @@ def chunks(n, canonical, xfs, perturb=True):
     return out
 
 
-def main(run: core.Run):
+def main(run: core.Run, only=None):
     xfs = list(XFS)
     cases = []
     if run.tier == "quick":
@@ -160,6 +209,7 @@ def main(run: core.Run):
     for n, canonical, perturb in plan:
         cases += chunks(n, canonical, xfs, perturb)
     results = run.drive(cases, family="lattice-polygons", chunksize=1)
+    run.drive([{"poly": k, "tol": t} for k in range(len(FILTER_POLYS)) for t in (1.0e-4, 0.001, 0.01, 0.5)], family="land-constraint-filter")
     mins = [r.get("min_detour_e6") for r in results if r.get("min_detour_e6") is not None]
     min_detour = min(mins) / 1e6 if mins else None
     rule = (
@@ -177,5 +227,5 @@ def main(run: core.Run):
             "exact oracle works on doubled integer coordinates; the affine images are applied to vertices and probes alike",
         ],
         extra={"min_offedge_detour": min_detour},
-        require_outcomes=("inside", "on_edge", "outside"),
+        require_outcomes=("inside", "on_edge", "outside", "land_filter"),
     )
